@@ -20,7 +20,8 @@ Init == l = 1 /\ bad = <<>> /\ tbl = <<>>
 
 White == "color.Gray16{65535}"
 
-Entry(r) == [dim |-> r.mdim, w |-> r.w, h |-> r.hh, px |-> r.px, content |-> r.content, mkind |-> r.mkind,
+HasPx(r) == "px" \in DOMAIN r          \* results of 10^9 pixels are recorded without their pixels (projection "outcome")
+Entry(r) == [dim |-> r.mdim, w |-> r.w, h |-> r.hh, px |-> IF HasPx(r) THEN r.px ELSE <<>>, content |-> r.content, mkind |-> r.mkind,
              hascs |-> r.hascs, cs |-> r.cs, hasscheme |-> r.hasscheme, sbg |-> r.sbg, reflist |-> r.reflist,
              minx |-> r.minx, miny |-> r.miny]
 
@@ -39,8 +40,8 @@ ScaleWhy(e, s) ==
               reflist == s.reflist \o <<fillstr>>
           IN IF r.minx # 0 \/ r.miny # 0 \/ r.w # e.w \/ r.hh # e.hh THEN "bounds"
              ELSE IF r.fillstr # fillstr THEN "default-fill"
-             ELSE IF r.reflist # reflist THEN "pixels"      \* a colour that is neither the source's nor the fill
-             ELSE IF ~IsScaled(s, e.w, e.hh, FirstIndex(reflist, fillstr), r.px) THEN "pixels"
+             ELSE IF HasPx(r) /\ s.px # <<>> /\ r.reflist # reflist THEN "pixels"      \* a colour that is neither the source's nor the fill
+             ELSE IF HasPx(r) /\ s.px # <<>> /\ ~IsScaled(s, e.w, e.hh, FirstIndex(reflist, fillstr), r.px) THEN "pixels"
              ELSE IF r.content # s.content THEN "content"
              ELSE IF r.mkind # s.mkind \/ r.mdim # s.dim THEN "metadata"
              ELSE IF r.hascs # s.hascs \/ r.cs # s.cs THEN "checksum"
